@@ -39,3 +39,77 @@ package workers
 //@   vars c int, max int, id int
 //@   hyp 0 <= c && max >= 0 && (max == 0 || c + 1 <= max) && id == c + 1
 //@   goal id == c + 1 && (max > 0 && c >= max ==> false)
+//@
+//@ // ---- one iteration (C01, C06, C07, C16, C17)
+//@ pred wfState(st *iterationState) = st != nil && wfT(st.t) && isBound(st.teardown, st.t, "teardown")
+//@ pred wfScenario(s *ActiveScenario) = s != nil && s.scenario != nil && s.m != nil && s.progress != nil && s.scenario.RunFn != nil &&
+//@     s.m.Iteration != nil && s.m.Setup != nil
+//@ ghost var Gpan bool
+//@ ghost var Gphase int
+//@ ghost var GT0 int
+//@ ghost var GT1 int
+//@ ghost var Gfailed bool
+//@ ghost var GbodyStart int
+//@ ghost var GbodyEnd int
+//@ ghost var GmarksAtBody int
+//@ ghost var GnCleanups int
+//@
+//@ func (*ActiveScenario).Run$1
+//@   props C07 C06 C17
+//@   requires wfScenario(s) && wfState(state) && !state.t.tearingDown
+//@   dyncall RunFn : userIter
+//@   ghost at entry : Gpan = false
+//@   ghost before call dyn:RunFn : GbodyStart = Gclock
+//@   ghost onpanic call dyn:RunFn : Gpan = true
+//@   ghost at exit : GbodyEnd = Gclock
+//@   modifies state.t.failed, state.t.teardownFailed, state.t.teardownStack, Gmarks, Gpan, GbodyStart, GbodyEnd
+//@   ensures [contained] state.t.failed <==> (old(state.t.failed) || Gmarks > old(Gmarks) || Gpan)
+//@   ensures [teardown-flag] state.t.teardownFailed == old(state.t.teardownFailed)
+//@   ensures [wf] wfT(state.t) && !state.t.tearingDown && Gmarks >= old(Gmarks)
+//@   ensures [handle] GbodyStart == old(Gclock) && GbodyEnd == Gclock
+//@
+//@ func (*ActiveScenario).Run
+//@   props C01 C06 C07 C16 C17
+//@   requires wfScenario(s) && wfState(state) && !state.t.failed && !state.t.tearingDown && tracks(s.progress)
+//@   requires NrecD < 18446744073709551615
+//@   dyncall teardown : method testing.(*T).teardown(state.t)
+//@   ghost at entry : Gphase = 0
+//@   ghost after call xtime.NanoTime #0 : assert [clock-first] Gphase == 0 ; Gphase = 1 ; GT0 = ret0
+//@   ghost before call Run$1 : assert [body-after-clock] Gphase == 1 ; Gphase = 2
+//@   ghost after call Run$1 : Gphase = 3 ; GmarksAtBody = Gmarks
+//@   ghost after call (*T).Failed #0 : assert [outcome-after-body] Gphase == 3 ; Gphase = 4 ; Gfailed = ret0
+//@   ghost after call xtime.NanoTime #1 : assert [clock-after-outcome] Gphase == 4 ; Gphase = 5 ; GT1 = ret0
+//@   ghost before call (*Metrics).RecordIterationResult #0 : assert [metric-after-clock] Gphase == 5 ; assert [metric-args] arg1 == s.scenario.Name && arg2 == (Gfailed ? "fail" : "success") && arg3 == GT1 - GT0 ; Gphase = 6
+//@   ghost before call (*Stats).Record #0 : assert [stats-after-metric] Gphase == 6 ; assert [stats-args] arg1 == (Gfailed ? "fail" : "success") && arg2 == GT1 - GT0 ; Gphase = 7
+//@   ghost before call dyn:teardown : assert [cleanups-last] Gphase == 7 ; Gphase = 8 ; GnCleanups = len(state.t.teardownStack)
+//@   modifies state.t.failed, state.t.teardownFailed, state.t.teardownStack, state.t.tearingDown, Gmarks, Gpan, GbodyStart, GbodyEnd,
+//@            Gphase, GT0, GT1, Gfailed, GmarksAtBody, GnCleanups, Gclock, GMiter, Gcalled, GlastCalled,
+//@            s.progress.successfulIterationDurations.running, s.progress.failedIterationDurations.running, s.progress.droppedIterationCount,
+//@            NrecS, NrecF, NrecD, SumS, SumF, MinS, MinF, MaxS, MaxF
+//@   ensures [classified] Gfailed <==> (GmarksAtBody > old(Gmarks) || Gpan)
+//@   ensures [counted-once] NrecS == old(NrecS) + (Gfailed ? 0 : 1) && NrecF == old(NrecF) + (Gfailed ? 1 : 0) && NrecD == old(NrecD)
+//@   ensures [exported] s.m.IterationMetricsEnabled ==> ((Gfailed ==> GMiter["fail"] == old(GMiter["fail"]) + 1 && GMiter["success"] == old(GMiter["success"])) &&
+//@           (!Gfailed ==> GMiter["success"] == old(GMiter["success"]) + 1 && GMiter["fail"] == old(GMiter["fail"]))) && GMiter["dropped"] == old(GMiter["dropped"])
+//@   ensures [duration] GT0 <= GbodyStart && GbodyEnd <= GT1 && GT1 - GT0 >= GbodyEnd - GbodyStart
+//@   ensures [cleanups] forall j int :: 0 <= j && j < GnCleanups ==> Gcalled[j] == old(Gcalled[j]) + 1
+//@   ensures [done] Gphase == 8 && tracks(s.progress) && state.t.tearingDown
+//@
+//@ func (*ActiveScenario).RecordDroppedIteration
+//@   props C01 C02 C16
+//@   requires wfScenario(s) && tracks(s.progress) && NrecD < 18446744073709551615
+//@   modifies GMiter, s.progress.successfulIterationDurations.running, s.progress.failedIterationDurations.running, s.progress.droppedIterationCount,
+//@            NrecS, NrecF, NrecD, SumS, SumF, MinS, MinF, MaxS, MaxF
+//@   ensures [counted-once] NrecD == old(NrecD) + 1 && NrecS == old(NrecS) && NrecF == old(NrecF) && tracks(s.progress)
+//@   ensures [exported] s.m.IterationMetricsEnabled ==> GMiter["dropped"] == old(GMiter["dropped"]) + 1
+//@
+//@ func (*ActiveScenario).Failed
+//@   props C06
+//@   requires s.t != nil
+//@   modifies nothing
+//@   ensures result == s.t.failed
+//@
+//@ func (*ActiveScenario).TeardownFailed
+//@   props C06
+//@   requires s.t != nil
+//@   modifies nothing
+//@   ensures result == s.t.teardownFailed
